@@ -68,9 +68,21 @@ def processArg (m : Nat) : AstArg → Except ArgErr (Option Sg)
   | .const v => do let h ← liftHash (ddsHash m v); pure (some h)
   | .other => .ok none
 
+/-- the literal values of a list of arguments, when all of them are literals -/
+def allConst : List AstArg → Option (List PyVal)
+  | [] => some []
+  | .const v :: as => (allConst as).map (fun vs => v :: vs)
+  | .other :: _ => none
+
 def argAst (m : Nat) (args : List AstArg) (kwargs : List (String × AstArg)) (idx : Nat) (p : Param) :
     Except ArgErr (Option Sg) :=
   if p.kind ≠ .posOrKw ∧ p.kind ≠ .varKw ∧ p.kind ≠ .varPos then .error .notImplemented else
+  -- (since the `fix:` commit for `*args`) every remaining positional argument is bound to a `*args` parameter
+  if p.kind = .varPos then
+    match allConst (args.drop idx) with
+    | some vs => do let h ← liftHash (ddsHash m (.list vs)); pure (some h)
+    | none => .ok none
+  else
   match args[idx]? with
   | some a => processArg m a
   | none =>
